@@ -359,3 +359,24 @@ Theorem C20_window_float_within_tolerance : forall sr (w : Q * Q),
   valid_conv_tol sr w (conv64 sr w) = true.
 Proof. exact conv64_within_tolerance. Qed.
 Print Assumptions C20_window_float_within_tolerance.
+
+(* ---- round 4: which side of an edge.  The grid is monotone in k and strictly monotone below 2^52 samples, so a jump placed at
+        the rational time j / rate — stored in a waveform table as the binary64 number edge = b64 (j / rate) — has sample k at or
+        after it exactly when k >= j: the sample on the edge is taken ON the edge, the one before it before it ---- *)
+Theorem C20_grid_time_monotone : forall rate k j, (0 < rate)%Q -> (k <= j)%Z -> (grid_time rate k <= grid_time rate j)%Q.
+Proof. exact grid_time_monotone. Qed.
+Print Assumptions C20_grid_time_monotone.
+
+Theorem C20_grid_edge_side : forall rate j k, (0 < rate)%Q -> (0 <= k)%Z -> (0 <= j < 2 ^ 52)%Z ->
+  (bpow radix2 (-1022) <= IZR j / Q2R rate)%R ->
+  ((b64 (inject_Z j / rate) <= grid_time rate k)%Q <-> (j <= k)%Z).
+Proof. exact grid_edge_side. Qed.
+Print Assumptions C20_grid_edge_side.
+
+(* ---- round 4: the model of get_sample_times meets the specification spec_times (lengths = nearest integer within 1e-10 and
+        positive, rejection exactly when no such integer exists, grid = grid_time) whenever the guard of the code holds ---- *)
+Theorem C20_sample_times_meets_spec : forall rate durs,
+  match sample_times rate durs with ORet (_, lens) => grid_guard rate (fold_right Z.max 0%Z lens) | OErr => true end = true ->
+  spec_times rate durs (sample_times rate durs) = true.
+Proof. exact sample_times_meets_spec. Qed.
+Print Assumptions C20_sample_times_meets_spec.
